@@ -113,6 +113,7 @@ where
     let len = if D >= 4 { len / 2 + 4 } else { len };
     let mut log: Vec<Value> = Vec::new();
     let mut nontrivial = false;
+    let mut sweep_foreign: Option<Dt<K, D>> = None;
     for step in 0..len {
         if ctx.elapsed() > ctx.budget_s * 1.3 {
             break;
@@ -201,6 +202,13 @@ where
                 break;
             }
             out.count("readonly_query_rounds");
+            // hostile-argument sweep over the key/index/handle/UUID-taking public surface (never
+            // mutates `dt`; own rng stream so the operation stream of the history is unchanged)
+            let mut srng = Rng::derive(cs, step as u64, 0xC195);
+            if let Some((pi, what)) = super::c19_sweep::sweep::<K, D>(&dt, &mem, &mut srng, out, &mut sweep_foreign) {
+                out.panic(P, &pi, &format!("hostile-argument sweep: {}", what), mk_rp(&log, json!({"sweep_call": what, "sweep_step": step})));
+                break;
+            }
         }
     }
     progress("");
@@ -322,7 +330,20 @@ where
     out.nontrivial(&format!("corrupted|{}", cs));
 }
 
+/// State-independent part of the hostile-argument sweep (index / count parameters of functions
+/// that involve no triangulation): once per process.
+fn pure_case(out: &mut Out) {
+    out.eval();
+    if let Some((pi, what)) = super::c19_sweep::sweep_pure(out) {
+        out.panic(P, &pi, &format!("hostile-argument sweep (state-independent part): {}", what), json!({"property": P, "kind": "pure", "case_seed": "0", "D": 3, "kernel": "fast", "sweep_call": what}));
+    }
+    out.nontrivial("pure");
+}
+
 fn run_kind(ctx: &Ctx, out: &mut Out, cs: u64, d: usize, kn: Kn, kind: &str) {
+    if kind == "pure" {
+        return pure_case(out);
+    }
     macro_rules! go {
         ($f:ident) => {
             match (d, kn) {
@@ -383,6 +404,7 @@ pub fn run(ctx: &Ctx, out: &mut Out) {
         }
         return;
     }
+    pure_case(out);
     // half of the budget: own fuzz; other half: slices of the other monitors
     let own_budget = ctx.budget_s * 0.5;
     let cap = (if ctx.tier == Tier::Thorough { 200_000.0 } else { 3_000.0 } * ctx.scale) as u64;
